@@ -2,6 +2,8 @@ package props
 
 import (
 	"fmt"
+	"os"
+	"path/filepath"
 	"runtime"
 	"strings"
 	"time"
@@ -20,9 +22,9 @@ func init() {
 		ID:    "C13",
 		Run:   runC13,
 		Level: "exploration",
-		Rule: "a run = one hostile input: (ammo) a well-formed prefix of 0-4 generated entries in uri / uripost / raw / http/json / grpc/json followed by a malformed tail from a per-format list (non-numeric, negative, huge and truncated size fields, broken header lines, invalid JSON, bad methods and URLs) or a byte-level mutation (truncate, flip, splice, delete) of a well-formed file, " +
+		Rule: "a run = one hostile input: (ammo) a well-formed prefix of 0-4 generated entries in uri / uripost / raw / http/json / grpc/json followed by a malformed tail from a per-format list (non-numeric, negative, huge and truncated size fields, broken header lines, invalid JSON, bad methods and URLs, lines longer than the maximal ammo size) or a byte-level mutation (truncate, flip, splice, delete) of a well-formed file, " +
 			"read through the real provider (preload on/off, Run task + consumer tasks, chunked reads); (scenario) a valid http/grpc scenario description in YAML or HCL with one structural defect (unknown request, leading sleep(), malformed name(count, sleep), empty or missing data sources, unknown plugin types, truncation at a drawn byte); " +
-			"(config) pool configuration values with hostile placeholders (${}, ${property:file} without a key, unknown tag types, unterminated) decoded through core/config; verdicts: panic in any task = CRASH, bubble deadlock = HANG, tick budget = SPIN, plus 'error reported' for the definitely malformed inputs and 'well-formed prefix delivered unchanged'; " +
+			"(config) pool configuration values with hostile placeholders (${}, ${property:file} without a key or naming a properties file with lines that have no '=', unknown tag types, unterminated) decoded through core/config; verdicts: panic in any task = CRASH, bubble deadlock = HANG, tick budget = SPIN, plus 'error reported' for the definitely malformed inputs and 'well-formed prefix delivered unchanged'; " +
 			"non-trivial = the malformed part was reached after at least one well-formed entry, or a scenario/config defect was exercised; distinct = distinct (mode, format, defect) x schedule-trace hash",
 		Components: map[string]string{
 			"components/providers/http (provider, decoders)": "real", "components/providers/grpc/grpcjson": "real", "components/providers/scenario (config, http, grpc, vs)": "real",
@@ -97,6 +99,9 @@ var c13Tails = map[string][]badTail{
 		{"wrong-type", "{\"tag\": 5, \"call\": [], \"payload\": 7}\n", true},
 		{"garbage", "not json at all\n", true},
 		{"array", "[1, 2, 3]\n", true},
+		// (longer than max ammo size, which this tail sets to 256 bytes; the default, 64 KiB, is exceeded by the next one)
+		{"oversized-line", "{\"tag\": \"big\", \"call\": \"target.TargetService.Hello\", \"payload\": {\"hello\": \"" + strings.Repeat("w", 400) + "\"}}\n" + grpcLine(9), true},
+		{"oversized-line-default-limit", "{\"tag\": \"big\", \"call\": \"target.TargetService.Hello\", \"payload\": {\"hello\": \"" + strings.Repeat("w", 70000) + "\"}}\n" + grpcLine(9), true},
 	},
 }
 
@@ -232,6 +237,9 @@ func c13Ammo(r *R) {
 	}
 	if preload {
 		conf["preload"] = true
+	}
+	if defect == "oversized-line" {
+		conf["maxammosize"] = 256
 	}
 	coe := false
 	if format == "grpc/json" && w.Draw(3) == 0 {
@@ -528,7 +536,16 @@ var c13Placeholders = []struct {
 	{"two-colons", "${a:b:c}", false},
 	{"dollar-only", "$", false},
 	{"spaces", "${  property : x  }", true},
+	// (@PROPS@ = a properties file the run writes: comment, a line that is only a key, key=value, =v, blank, k2==x, a last line without '=' or newline)
+	{"property-defined", "${property:@PROPS@#key}", false},
+	{"property-line-without-equals", "${property:@PROPS@#justkey}", true},
+	{"property-last-line-without-equals", "${property:@PROPS@#last}", true},
+	{"property-unknown", "${property:@PROPS@#nosuch}", true},
+	{"property-empty-name", "${property:@PROPS@#}", false},
+	{"property-value-with-equals", "${property:@PROPS@#k2}", false},
 }
+
+const c13Properties = "# comment\njustkey\nkey=7\n=8\n\nk2==x\nlast"
 
 func c13Config(r *R) {
 	w := r.W
@@ -538,6 +555,17 @@ func c13Config(r *R) {
 	r.Note("config/" + ph.Name)
 	r.NonTrivial()
 	var err error
+	val := ph.Val
+	if strings.Contains(val, "@PROPS@") {
+		// the resolver opens the file with package os: a real scratch file, written before and removed after the run
+		path := filepath.Join(os.TempDir(), fmt.Sprintf("verif-c13-%d-%d.properties", os.Getpid(), r.Seed))
+		if werr := os.WriteFile(path, []byte(c13Properties), 0o600); werr != nil {
+			r.Note("config/scratch-file-not-writable")
+			return
+		}
+		defer os.Remove(path)
+		val = strings.ReplaceAll(val, "@PROPS@", path)
+	}
 	res := r.Sim(simrt.Config{Horizon: time.Minute, Grace: time.Second, MaxSteps: 10000, TickLimit: 300_000}, false, func() {
 		ensureImport()
 		GlobalFs.Set(simfs.New())
@@ -546,16 +574,16 @@ func c13Config(r *R) {
 			var c struct {
 				S string `config:"s"`
 			}
-			err = config.DecodeAndValidate(map[string]interface{}{"s": ph.Val}, &c)
+			err = config.DecodeAndValidate(map[string]interface{}{"s": val}, &c)
 		case 1: // int field
 			var c struct {
 				N int `config:"n"`
 			}
-			err = config.DecodeAndValidate(map[string]interface{}{"n": ph.Val}, &c)
+			err = config.DecodeAndValidate(map[string]interface{}{"n": val}, &c)
 		case 2: // duration inside a component config
-			_, err = decodeSchedule(map[string]interface{}{"type": "const", "ops": 1, "duration": ph.Val})
+			_, err = decodeSchedule(map[string]interface{}{"type": "const", "ops": 1, "duration": val})
 		default: // a provider's file name
-			_, err = decodeProvider(map[string]interface{}{"type": "uri", "uris": []interface{}{"/a"}, "limit": ph.Val})
+			_, err = decodeProvider(map[string]interface{}{"type": "uri", "uris": []interface{}{"/a"}, "limit": val})
 		}
 	})
 	sig := "config/" + ph.Name
